@@ -163,6 +163,12 @@ def encodeCellsB (legacy : Bool) (cs : List (Cell Str)) : Str := encodeFromB (en
 /-- `(&StyledString{cells}).Encode()` as a string. -/
 def ssEncodeB (legacy : Bool) (cs : List (Cell Str)) : Str := encodeFromB (ssDeltaB legacy) {} cs
 
+/-- The SGR part of one rendered frame as bytes (`Sgr.renderFrom` printed: pen deltas and graphemes of the changed cells in
+    order, `sgrReset` at the end; cursor movement and mode sequences are not part of this model). -/
+def renderFromB (rgb su legacy : Bool) (cursor : Style) : List (Cell Str) → Str
+  | [] => bytesOf Sequences.sgrReset
+  | c :: cs => renderDeltaB rgb su legacy cursor c.st ++ (c.g ++ renderFromB rgb su legacy c.st cs)
+
 /-! ## `ParseStyledString`: the ansi parser, then `parseSGR` -/
 
 /-- What arrives on the parser's channel: `Print` with its whole grapheme, or any other sequence. -/
